@@ -68,7 +68,11 @@ def extract(repo=REPO, target_dir=None, quiet=True):
     os.makedirs(os.path.join(BUILD, "facts"), exist_ok=True)
     h = tree_hash(repo)
     out = os.path.join(BUILD, "facts", h)
-    lock = open(os.path.join(BUILD, "extract.lock"), "w")
+    if all(os.path.exists(os.path.join(out, u + ".json")) for u in UNITS):
+        return out, {"cached": True, "hash": h, "wall_s": 0.0}
+    # one extraction at a time per cargo target directory (runs with different target directories may overlap)
+    tname = os.path.basename(target_dir) if target_dir else "target"
+    lock = open(os.path.join(BUILD, "extract.lock" if tname == "target" else "extract-%s.lock" % tname), "w")
     fcntl.flock(lock, fcntl.LOCK_EX)
     try:
         if all(os.path.exists(os.path.join(out, u + ".json")) for u in UNITS):
@@ -106,9 +110,9 @@ def extract(repo=REPO, target_dir=None, quiet=True):
             raise SystemExit("glasfacts: fact files not rewritten in this run: %s" % missing)
         shutil.rmtree(out, ignore_errors=True)
         os.rename(tmp, out)
-        # keep the cache small: drop all but the 6 newest fact dirs
+        # keep the cache small: drop all but the 320 newest fact dirs (one per seeded change, ~19 MB each)
         dirs = sorted(glob.glob(os.path.join(BUILD, "facts", "*")), key=os.path.getmtime)
-        for d in dirs[:-150]:
+        for d in dirs[:-320]:
             shutil.rmtree(d, ignore_errors=True)
         return out, {"cached": False, "hash": h, "wall_s": round(time.time() - t0, 2)}
     finally:
